@@ -146,17 +146,37 @@ def pause_hook(m, kind, traced):
 htmltree.PAUSE_HOOK = pause_hook
 
 
+_RC_MIR = None
+
+
+def ensure_rc(mir):
+    """load the MIR of markup5ever_rcdom into this worker (once)"""
+    global _RC_MIR
+    from mirsym import rcdomtee
+    from mirsym.program import Program
+    if mir and _RC_MIR != mir:
+        rcdomtee.PROG_RC = Program(mir, C_REPO(), "rcdom", MD.M)
+        _RC_MIR = mir
+
+
+def C_REPO():
+    from lib import common
+    return common.REPO
+
+
 def unit_tree(args):
     """args: name, shape, opts (dict for htmltree.Opts), max_paths"""
     t0 = time.time()
+    if args.get("rc_mir"):
+        ensure_rc(args["rc_mir"])
     res = {"unit": "tree %s" % args["name"], "name": args["name"], "paths": 0, "queries": 0, "obligations": 0, "errors": [], "steps": 0,
-           "C04": [], "C05": [], "C06": [], "C18": [], "budget_hit": False}
+           "C04": [], "C05": [], "C06": [], "C18": [], "C20": [], "budget_hit": False}
     try:
         chars, cons = build_input(args["shape"])
         o = args.get("opts", {})
         work = [[]]
         maxp = args.get("max_paths", 4000)
-        seen_msgs = {"C04": set(), "C05": set(), "C06": set(), "C18": set()}
+        seen_msgs = {"C04": set(), "C05": set(), "C06": set(), "C18": set(), "C20": set()}
         while work:
             d = work.pop()
             m = Machine(TC._PROG, d)
@@ -220,6 +240,10 @@ def unit_tree(args):
                     report("C06", msg, extra)
             for msg in trace_check(st, m):
                 report("C18", msg)
+            if o.get("rcdom"):
+                from mirsym import rcdomtee
+                for msg, extra in rcdomtee.compare(m):
+                    report("C20", msg, extra)
     except Unsupported as e:
         res["errors"].append("unsupported: " + str(e)[:300])
     except Exception:
